@@ -20,12 +20,13 @@
     on the written text for what the CLI does (label, solve, write), hypotheses on the FILE only.
 
   WHICH NAMES ARE COVERED.  Given names and colours must satisfy `NT.safeStr`: non-empty, every
-  character an ASCII letter, an ASCII digit or `_` (`Char.isAlphanum` is ASCII-only).  This is the
-  alphabet of C11's `SafeNames` (`RecOutput.WF`), NARROWER than what the Newick codec round-trips
-  (`Newick.safeName`: anything without `:;(),[]=`, TAB, LF, CR and without a blank at either end).
-  So `x_1`, `Ecoli_3`, `O0`, `0000FF` are covered; `E.coli_1`, `sp-1`, `é`, `#0000FF` are inside
-  the codec's domain but OUTSIDE these theorems (they would need C11's `WF` restated with
-  `Newick.safeName`; not done here).  The property's own quantifier (`<species>_<id>` leaf names,
+  character an ASCII letter, an ASCII digit, `_`, `.` or `-` (`Char.isAlphanum` is ASCII-only).
+  This is the alphabet of C11's `SafeNames` (`RecOutput.WF`), still NARROWER than what the Newick
+  codec round-trips (`Newick.safeName`: anything without `:;(),[]=`, TAB, LF, CR and without a
+  blank at either end).  So `x_1`, `Ecoli_3`, `O0`, `0000FF`, `E.coli_1`, `sp-1` are covered;
+  `é`, `#0000FF`, `a b` are inside the codec's domain but OUTSIDE these theorems (they would need
+  C11's `WF` restated with `Newick.safeName`; not done here).  The property's own quantifier
+  (`<species>_<id>` leaf names,
   generated `O#`/`S#`) is covered.  A given name `NoName` counts as unnamed (ete3's legacy
   default) and is replaced, as in the code.
 -/
@@ -156,10 +157,11 @@ theorem C12_cli_cost_line_text_uspfs {ot st : NT} {S : RTree} {o : OTree} {fname
 
 /-- Names the Newick codec round-trips but these theorems do not cover, and names they do. -/
 theorem C12_names_alphabet_gap :
-    (Newick.safeName "E.coli_1" = true ∧ NT.safeStr "E.coli_1" = false) ∧
-    (Newick.safeName "sp-1" = true ∧ NT.safeStr "sp-1" = false) ∧
+    (Newick.safeName "#0000FF" = true ∧ NT.safeStr "#0000FF" = false) ∧
+    (Newick.safeName "a b" = true ∧ NT.safeStr "a b" = false) ∧
     (Newick.safeName "é" = true ∧ NT.safeStr "é" = false) ∧
-    (NT.safeStr "x_1" = true ∧ NT.safeStr "O0" = true ∧ NT.safeStr "0000FF" = true) := by
+    (NT.safeStr "x_1" = true ∧ NT.safeStr "O0" = true ∧ NT.safeStr "0000FF" = true) ∧
+    (NT.safeStr "E.coli_1" = true ∧ NT.safeStr "sp-1" = true) := by
   decide
 
 /-- The reviewer's file: `((x_1,x_2)[&&NHX:color=0000FF],y_1);` with both ancestors unnamed, on
